@@ -120,7 +120,14 @@ class C18(Check):
 
 class C17(Check):
     id = "C17"
-    modules = ["EG.Props.C17"]
+    modules = ["EG.Props.C17Table", "EG.Props.C17"]
+
+    def regenerate(self, log):
+        import tables_single
+        n, changed = tables_single.regenerate()
+        log["table_rows"] = n
+        log["table_changed_since_last_run"] = changed
+        return None
     assumptions = ["argument values are hashable; the key of a construction is the value returned by the metaclass's hash function "
                    "(default: the (args, json(kwargs)) pair itself), compared with ==",
                    "the instance maps are private: model and code are compared through get_all / check_semi_singleton_entry_exists for every class and argument tuple"]
